@@ -43,7 +43,7 @@ STRUCT_FIELDS = {"width", "height", "size", "num_frames", "num_layers", "pixel_f
                  "frame_ids", "layers", "layers_iter", "layer_by_name", "num_tags", "tags", "get_tag_out_of_range", "tag_by_name", "slices",
                  "palette", "external_files", "tilesets", "debug"}
 TILE_FIELDS = {"tilemap.size", "tilemap.tile_size", "tilemap.tile_offsets", "tilemap.pixel_offsets", "tilemap.tileset", "tilemap.lookup",
-               "tilemap.lookup_far", "tilemap.unexpected", "tileset_images", "cel.tilemap_some", "tilemaps_complete", "tilemap_out_of_range"}
+               "tilemap.lookup_far", "tilemap.unexpected", "tilemap.image", "tileset_images", "cel.tilemap_some", "tilemaps_complete", "tilemap_out_of_range"}
 UD_FIELDS = {"user_data.layer", "user_data.cel", "user_data.tag", "user_data.slice", "user_data.sprite"}
 # which observation fields (names printed by TLC) concern which property; None = every field
 FIELDS = {
@@ -52,13 +52,13 @@ FIELDS = {
     "C06": {"cel.image", "cel.facts", "cels_complete"},
     "C07": {"variant_result_differs", "variant_observation_differs"},
     "C08": TILE_FIELDS | {"tilemap.image_is_cel_image"},
-    "C09": {"parents", "visible", "frame.uncovered_pixels_transparent"},
+    "C09": {"parents", "visible", "frame.uncovered_pixels_transparent", "forest_sample", "forest_layers"},
     "C10": UD_FIELDS | {"parser_state_after_chunk"},
     "C11": {"palette", "load_result_ok", "load_result_err"},
     "C16": {"second_load_differs", "profile_pair_differs"},
     "C19": {"cel.routes_agree", "frame.single_layer_equals_cel", "tilemap.image_is_cel_image"},
     "C04": {"crash"},
-    "C05": {"panics", "usable"},
+    "C05": {"panics", "usable", "forest_layers"},
     "C12": {"memory_bound"},
     "C15": {"load_result_ok"},
 }
@@ -249,27 +249,45 @@ def replay(pid, path, work, rep):
 
 # ------------------------------------------------------------------------------------------
 # Direction A: TLC enumerates programs (MC_*.tla), the harness replays them, TLC validates.
-def mc_run(rep, work, module, constants, invariants, workers=8, timeout=3000, name=None):
-    """Model-check MC_<module> with the given constants; returns path of TLC's output (PROG/MENU prints)."""
+def mc_run(rep, work, module, constants, invariants, workers=8, timeout=3000, name=None, coverage_invariants=None):
+    """Model-check MC_<module> with the given constants; returns path of TLC's output (PROG/MENU prints).
+    Vacuity control: TLC's -coverage action counts; every action of the model module must have been taken. TLC's coverage
+    bookkeeping exhausts the heap on invariants that evaluate the byte-level encoder/decoder for every state, so for such
+    models the counts come from a second run of the same model and constants with the cheap invariants only
+    (`coverage_invariants`); the action counts do not depend on the invariants."""
     name = name or module
+    def write_cfg(path, invs):
+        with open(path, "w") as f:
+            f.write("SPECIFICATION Spec\nCONSTANTS\n")
+            for k, v in constants.items():
+                f.write(f"  {k} = {v}\n")
+            f.write("INVARIANTS " + " ".join(invs) + "\nCHECK_DEADLOCK FALSE\n")
     cfg = work.path(f"{name}.cfg")
-    with open(cfg, "w") as f:
-        f.write("SPECIFICATION Spec\nCONSTANTS\n")
-        for k, v in constants.items():
-            f.write(f"  {k} = {v}\n")
-        f.write("INVARIANTS " + " ".join(invariants) + "\nCHECK_DEADLOCK FALSE\n")
+    write_cfg(cfg, invariants)
     out = work.path(f"{name}.tlc.out")
-    rc, _, wall = run_tlc(f"{module}.tla", cfg, workers=workers, timeout=timeout, outfile=out, extra=["-coverage", "1"])
+    split = coverage_invariants is not None
+    rc, _, wall = run_tlc(f"{module}.tla", cfg, workers=workers, timeout=timeout, outfile=out, extra=None if split else ["-coverage", "1"], xmx="10g")
     text_tail = subprocess.run(["grep", "-vE", '^<<"(PROG|MENU)"', out], capture_output=True, text=True).stdout
     gen_, dist = tlc_summary(text_tail)
     if "Model checking completed. No error has been found." not in text_tail:
         errs = [l for l in text_tail.splitlines() if "rror" in l or "violated" in l][:5]
         raise ToolError(f"model check of {module} did not complete cleanly (spec-level problem, not an implementation verdict): {errs} rc={rc}")
+    cov_text = text_tail
+    if split:
+        cfg2 = work.path(f"{name}.cov.cfg")
+        write_cfg(cfg2, coverage_invariants)
+        rc2, cov_text, wall2 = run_tlc(f"{module}.tla", cfg2, workers=workers, timeout=timeout, extra=["-coverage", "1"], xmx="10g")
+        wall += wall2
+        g2, d2 = tlc_summary(cov_text)
+        if "Model checking completed. No error has been found." not in cov_text or d2 != dist:
+            raise ToolError(f"coverage run of {module} did not reproduce the model ({d2} vs {dist} states) rc={rc2}")
     # vacuity: every action of the model module must have been taken (TLC -coverage: <Action ...>: distinct:generated)
     actions = {}
-    for m in re.finditer(r"^<(\w+) line \d+, col \d+ to line \d+, col \d+ of module (\w+)>: (\d+):(\d+)", text_tail, re.M):
+    for m in re.finditer(r"^<(\w+) line \d+, col \d+ to line \d+, col \d+ of module (\w+)>: (\d+):(\d+)", cov_text, re.M):
         if m.group(2) == module:
             actions[m.group(1)] = max(actions.get(m.group(1), 0), int(m.group(4)))
+    if not actions:
+        raise ToolError(f"model {module}: no action coverage reported")
     never = sorted(a for a, n in actions.items() if n == 0)
     if never:
         rep.error(f"model {module}: action(s) never taken within the bounds (vacuous run): {never}")
@@ -365,9 +383,13 @@ def ud_chunk(pos):
 
 def expand_ud(syms, idx=0):
     chunks = []
+    frames = [chunks]
     for pos, s in enumerate(syms, start=1):
         k = s[0]
-        if k == "layer":
+        if k == "frame":
+            chunks = []
+            frames.append(chunks)
+        elif k == "layer":
             chunks.append({"k": "layer", "flags": 1, "name": [76]})
         elif k == "cel":
             chunks.append(cel1(s[1], color=(pos, pos, pos, 255)))
@@ -385,7 +407,9 @@ def expand_ud(syms, idx=0):
             chunks.append(IGN_CYCLE[(idx + pos) % len(IGN_CYCLE)])
         elif k == "ud":
             chunks.append(ud_chunk(pos))
-    return {"hdr": dict(HDR1, speed=100), "frames": [{"dur": 100, "chunks": chunks}]}
+    while len(frames) < 2:
+        frames.append([])          # MC_UD's header declares two frames; a program that stops in frame 0 ends with an empty frame
+    return {"hdr": dict(HDR1, speed=100), "frames": [{"dur": 100 + f, "chunks": ch} for f, ch in enumerate(frames)]}
 
 
 def c09(rep, work, tier, seed):
@@ -429,6 +453,18 @@ def c09(rep, work, tier, seed):
         for c in list(deep_cases()) + list(chain_cases()):
             f.write(json.dumps(c) + "\n")
     res2 = stage_cases(rep, work, b, deep, "deep-forests")
+    # more layers than 16 bits can count (layer ids are u32 in the API): the levels travel as one event, parents and
+    # visibility of a sample of layers (both ends, around every power-of-two boundary) are decided by ParentL / VisibleL
+    big = work.path("bigforest.ndjson")
+    def big_forest(n, pattern):
+        lv = [pattern[i % len(pattern)] for i in range(n)]
+        chunks = [{"k": "layer", "flags": (0 if (i % 97 == 5 or i in (65536, 65544)) else 1) | 2, "ltype": 1 if (i + 1 < n and lv[i + 1] > lv[i]) else 0, "level": lv[i], "name": []} for i in range(n)]
+        chunks.append({"k": "cel", "layer": 2, "ctype": 0, "w": 1, "h": 1, "px": [[1, 2, 3, 255]]})
+        return {"hdr": {"w": 1, "h": 1, "depth": 32}, "frames": [{"dur": 1, "chunks": chunks}]}
+    shapes = [(65600, (0, 1, 2, 1, 2, 3, 0, 1))] if tier == "quick" else [(65600, (0, 1, 2, 1, 2, 3, 0, 1)), (70010, (0, 1, 1, 1, 2)), (131100, (0, 1, 2, 3, 4, 0, 1, 1))]
+    write_cases(big, ({"id": f"bigforest-{n}-{len(p)}", "mode": "forest", "meta": {"gen": "g5c", "shape": "more than 2^16 layers"}, "prog": big_forest(n, p)} for n, p in shapes))
+    res3 = stage_cases(rep, work, b, big, "forests-beyond-16-bits", shards=len(shapes), per_case_timeout=900)
+    rep.cov["layers_in_largest_forest"] = shapes[-1][0]
     need_ok(rep, res, "forest", 0.99)
     rep.cov["distinct_nontrivial"] = res["outcomes"][0] + res2["outcomes"][0]
     rep.final = dict(rule=f"every layer level sequence of <= {maxn} layers forming a forest x every visible-flag vector (TLC BFS, exhaustive), "
@@ -438,7 +474,7 @@ def c09(rep, work, tier, seed):
 
 def c10(rep, work, tier, seed):
     b = build("dev")
-    maxlen = 5 if tier == "quick" else 7
+    maxlen = 5 if tier == "quick" else 6
     out, states = mc_run(rep, work, "MC_UD", {"MaxLen": maxlen}, ["UDOwnerInv", "NoStrayInv", "AcceptedInv", "IgnoredStutterInv", "Export"], workers=10)
     cases = work.path("ud.ndjson")
     n = write_cases(cases, ({"id": f"ud-{i}", "mode": "full", "meta": {"gen": "g1", "syms": s}, "prog": expand_ud(s, i)}
@@ -449,16 +485,15 @@ def c10(rep, work, tier, seed):
     res = batched_stage(rep, work, b, cases, "ud", batch=60000)
     need_ok(rep, res, "ud", 0.99)
     os.remove(out)
-    if tier != "quick":
-        # one chunk more on the model alone (no replay)
-        mc_run(rep, work, "MC_UD", {"MaxLen": maxlen + 1}, ["UDOwnerInv", "NoStrayInv", "AcceptedInv", "IgnoredStutterInv"], workers=12, name="MC_UD8", timeout=3000)
+    # one symbol more on the model alone (no replay)
+    mc_run(rep, work, "MC_UD", {"MaxLen": maxlen + 1}, ["UDOwnerInv", "NoStrayInv", "AcceptedInv", "IgnoredStutterInv"], workers=12, name="MC_UD_deeper", timeout=3000)
     # random sprites with user data on layers, cels in all frames, slices, tags and the sprite (incl. empty records)
     g3 = work.path("g3.ndjson")
     gen(b, g3, "struct", seed + 21, 300 if tier == "quick" else 6000)
     resg = stage_cases(rep, work, b, g3, "g3-struct")
     need_ok(rep, resg, "g3-struct", 0.95)
     rep.cov["distinct_nontrivial"] = res["outcomes"][0]
-    rep.final = dict(rule=f"every chunk sequence of length <= {maxlen} over layer/cel/slice/tags(1,2)/legacy palette/new palette/ignorable/user data "
+    rep.final = dict(rule=f"every sequence of length <= {maxlen} over layer/cel/slice/tags(1,2)/legacy palette/new palette/ignorable/user data/frame boundary "
                           "satisfying C10's side conditions (TLC BFS, exhaustive; invariants UDOwnerInv, NoStrayInv, IgnoredStutterInv), each replayed "
                           "and validated by TLC incl. the parser's context after every chunk (hook)",
                      trusted=TRUSTED, exhaustive=True)
@@ -585,7 +620,7 @@ def mc_load_stage(rep, work, b, tier, depths=(32, 8)):
     tot = [0, 0, 0, 0]
     for depth in depths:
         out, states = mc_run(rep, work, "MC_Load", {"MaxLen": maxlen, "Depth": depth}, ["FoldInv", "RenderDefinedInv", "CelOrderInv", "RoundTripInv", "Export"],
-                             workers=10, name=f"MC_Load{depth}")
+                             workers=10, name=f"MC_Load{depth}", coverage_invariants=["FoldInv", "CelOrderInv"])
         cases = work.path(f"mcload{depth}.ndjson")
         n = write_cases(cases, ({"id": f"mcload{depth}-{i}", "mode": "full", "meta": {"gen": "g1", "model": "MC_Load", "spec_outcome": d["outcome"]}, "prog": d["prog"]}
                                 for i, d in enumerate(map(json.loads, extract_json_prints(out, "PROG")))))
@@ -616,7 +651,7 @@ def predicted_faults_stage(rep, work, b, tier, seed, nseeds=None):
     with open(seeds, "a") as f:
         f.write(open(t2).read())
     ff = work.path("pfields.ndjson")
-    faults(b, seeds, ff, "fields", seed, mode="bytes")
+    faults(b, seeds, ff, "fields", seed, mode="bytes", maxfields=120 if tier == "quick" else 400)
     res = batched_stage(rep, work, b, ff, "fields-predicted", batch=40000, env={"ASEVER_ALLOC_CAP": ALLOC_CAP})
     # arbitrary byte-level mutants of the same seeds: TLC's decoder must classify every one of them (it is total on byte strings)
     hv = work.path("phavoc.ndjson")
@@ -651,6 +686,31 @@ def bigcel_extra(rep, work, tier, seed, b):
     need_ok(rep, res, "g3-bigcel", 0.99)
 
 
+def bigmap_extra(rep, work, tier, seed, b):
+    """Tilemaps whose pixel extent exceeds 16 bits in one direction (long thin tiles x several hundred tiles) on a tiny canvas:
+    tile origins beyond 65535 must stay off canvas, lookups and images must still agree."""
+    cases = work.path("g3bigmap.ndjson")
+    gen(b, cases, "bigmap", seed + 53, 8 if tier == "quick" else 80)
+    res = stage_cases(rep, work, b, cases, "g3-bigmap", shards=4 if tier == "quick" else 8, jvms=8, xmx="6g")
+    need_ok(rep, res, "g3-bigmap", 0.99)
+
+
+def single_extra(rep, work, tier, seed, b):
+    """Sprites with one or two layers (image or tilemap, any blend mode / opacity, cels hanging over every edge): frames with exactly
+    one contributing layer must equal that layer's cel image, whatever the layer's mode, opacity, kind or position."""
+    cases = work.path("g3single.ndjson")
+    gen(b, cases, "single", seed + 55, 300 if tier == "quick" else 6000)
+    res = stage_cases(rep, work, b, cases, "g3-single")
+    need_ok(rep, res, "g3-single", 0.95)
+
+
+def both_extras(*fs):
+    def f(rep, work, tier, seed, b):
+        for g in fs:
+            g(rep, work, tier, seed, b)
+    return f
+
+
 def g3_check(pid, profile, nq, nt, rule, extra=None):
     def f(rep, work, tier, seed):
         b = build("dev")
@@ -675,17 +735,17 @@ def corpus_cases():
 
 
 CHECKS.update({
-    "C02": (g3_check("C02", "render", 300, 6000, extra=bigcel_extra, rule=
+    "C02": (g3_check("C02", "render", 300, 6000, extra=both_extras(bigcel_extra, bigmap_extra), rule=
                      "random/boundary sprites (canvas <= 6x6, <= 5 layers, all 19 modes, opacities, hidden layers/groups, linked and tilemap cels, "
                      "offsets incl. i16 extremes); every pixel of every frame image recomputed by TLC from AseRender.FrameImage"), "model_checking"),
     "C06": (g3_check("C06", "cel", 400, 8000, extra=bigcel_extra, rule=
                      "random/boundary sprites in the three pixel formats (sparse palettes, alpha < 255, all transparent-index positions, background "
                      "flag, raw/zlib/stored storage, links); every cel image and cel fact recomputed by TLC (AseRender.CelImage)"), "model_checking"),
-    "C08": (g3_check("C08", "tile", 400, 8000, extra=huge_extra, rule=
+    "C08": (g3_check("C08", "tile", 400, 8000, extra=both_extras(huge_extra, bigmap_extra), rule=
                      "random sprites with tilesets (tile sizes 1..3, counts 1..4, three formats) and tilemap cels at tile-aligned offsets incl. "
                      "off-canvas; tile lookups on a grid incl. far coordinates, tilemap image, tile/tileset images recomputed by TLC; "
                      "plus canvases and tile sizes up to the format maximum (dimension laws and lookups only)"), "model_checking"),
-    "C19": (g3_check("C19", "default", 400, 8000,
+    "C19": (g3_check("C19", "default", 400, 8000, extra=both_extras(single_extra, bigmap_extra), rule=
                      "random sprites with non-square frame x layer counts; the three cel routes, single-visible-layer frames and tilemap images "
                      "compared by TLC"), "model_checking"),
 })
@@ -759,8 +819,36 @@ def c03(rep, work, tier, seed):
                      explanation="exploration with the TLA+ blend algebra as the executable reference; not exhaustive over 19 x 2^80")
 
 
+def tlaps_stage(rep, work, tier):
+    """Unbounded argument for the laws of C17 on the specification: tlapm (SMT back end) proves spec/tlaps/AseArithProofs.tla -
+    alpha law, transparent source / zero opacity, transparent backdrop, opaque Normal and the 0..255 range - for every backdrop,
+    source, blend source and opacity, about the very definitions (AseArith.tla) that AseBlend extends and Trace_Blend binds to the
+    code. A proof that does not go through on the unchanged spec is a tool problem, never an implementation verdict. The thorough
+    tier adds the negative control: a deliberately false lemma must be refuted."""
+    t0 = time.time()
+    cache = work.path("tlacache")
+    def run(mod):
+        return subprocess.run(["timeout", "900", "tlapm", "--threads", "8", "--cleanfp", "--cache-dir", cache, "-I", SPEC, f"{SPEC}/tlaps/{mod}.tla"],
+                              capture_output=True, text=True, cwd=work.dir)
+    r = run("AseArithProofs")
+    m = re.search(r"All (\d+) obligations? proved", r.stdout + r.stderr)
+    if r.returncode != 0 or not m:
+        raise ToolError("tlapm did not prove AseArithProofs: " + (r.stdout + r.stderr)[-400:])
+    rep.cov["tlaps_obligations_proved"] = int(m.group(1))
+    neg = None
+    if tier == "thorough":
+        r2 = run("AseArithNeg")
+        neg = bool(re.search(r"obligations? failed", r2.stdout + r2.stderr)) and r2.returncode != 0
+        if not neg:
+            raise ToolError("tlapm negative control (AseArithNeg) was not refuted")
+        rep.cov["tlaps_negative_control_refuted"] = True
+    rep.stage("tlaps:AseArithProofs", obligations=int(m.group(1)), negative_control=neg, wall_s=round(time.time() - t0, 1))
+    log(f"[{rep.pid}] tlapm AseArithProofs: {m.group(1)} obligations proved, {time.time()-t0:.1f}s")
+
+
 def c17(rep, work, tier, seed):
     b = build("relchk")
+    tlaps_stage(rep, work, tier)
     lattice = "{0, 128, 255}" if tier == "quick" else "{0, 1, 128, 255}"
     mc_run(rep, work, "MC_Blend", {"Lattice": lattice, "Ops": "{0, 1, 128, 255}"},
            ["AlphaLawInv", "NormalAlphaInv", "ProductInv", "ChannelInv", "LerpInv", "SkeletonInv", "LatticeLawsInv"], workers=14)
@@ -880,7 +968,7 @@ def apalache_reader_stage(rep, work):
     log(f"[{rep.pid}] apalache AseReadInt: {done}/{len(obligations)} obligations discharged, {time.time()-t0:.1f}s")
 
 
-def last_chunk_variants(prog):
+def last_chunk_variants(prog, big=False):
     """Well-formed sprites whose LAST frame ends in each chunk kind (and shapes with an empty last frame / no frames at all):
     a truncation inside the trailing bytes of any chunk kind, or inside a bare frame header, must be refused (C13)."""
     import copy
@@ -902,6 +990,10 @@ def last_chunk_variants(prog):
         "path_empty": [{"k": "path", "body": []}],
         "legacy_palette": [{"k": "oldpal04", "packets": [{"skip": 0, "count": 1, "rgb": [[1, 2, 3]]}]}],
     }
+    if big:
+        # bodies above 64 KiB (read in several steps) whose content no parser looks at
+        tails["mask_70000"] = [{"k": "mask", "body": [7] * 70000}]
+        tails["celextra_66000"] = [{"k": "celextra", "body": [0] * 66000}]
     out = []
     base_ok = prog["hdr"].get("depth", 32) != 8          # keep indexed hosts' palettes untouched
     for name, tail in tails.items():
@@ -949,7 +1041,7 @@ def c13(rep, work, tier, seed):
         for hp in (hosts, work.path("lasthosts2.ndjson")):
             for line in open(hp):
                 c = json.loads(line)
-                for name, q in last_chunk_variants(c["prog"]):
+                for name, q in last_chunk_variants(c["prog"], big=(hp == hosts and c["id"].endswith("-0"))):
                     f.write(json.dumps({"id": f"{c['id']}|last={name}", "prog": q, "mode": "light", "meta": {"gen": "g3-last-chunk", "last": name}}) + "\n")
     res, n = driver_stage(rep, work, b, "cuts", cases, "cuts", [], kinds={"cut_full_file_fails", "cut_prefix_loaded"})
     rep.cov["traces_validated_against_impl"] += res["outcomes"][0]
@@ -1041,9 +1133,12 @@ def feature_switches(prog):
         for v in [3, 255]:
             sw("anim_direction", lambda q, v=v: q["frames"][-1]["chunks"].append({"k": "tags", "tags": [{"from": 0, "to": 0, "dir": v, "repeat": 0, "name": [120]}]}))
     # a profile chunk can be added anywhere: add one at the front of frame 0
-    if prog["frames"]:
-        sw("icc_profile", lambda q: q["frames"][0]["chunks"].insert(0, {"k": "profile", "ptype": 2, "flags": 0, "icc": [9, 9]}))
-        sw("fixed_gamma", lambda q: q["frames"][0]["chunks"].append({"k": "profile", "ptype": 0, "flags": 1}))
+    # (possibly after a supported one: the first profile chunk of a file is not the only one that counts)
+    for fi in sorted({0, len(prog["frames"]) - 1} if prog["frames"] else set()):
+        sw("icc_profile", lambda q, fi=fi: q["frames"][fi]["chunks"].insert(0, {"k": "profile", "ptype": 2, "flags": 0, "icc": [9, 9]}))
+        sw("fixed_gamma", lambda q, fi=fi: q["frames"][fi]["chunks"].append({"k": "profile", "ptype": 0, "flags": 1}))
+        sw("icc_profile", lambda q, fi=fi: q["frames"][fi]["chunks"].extend([{"k": "profile", "ptype": 1, "flags": 0}, {"k": "profile", "ptype": 2, "flags": 0, "icc": [1]}]))
+        sw("fixed_gamma", lambda q, fi=fi: q["frames"][fi]["chunks"].extend([{"k": "profile", "ptype": 0, "flags": 0}, {"k": "profile", "ptype": 1, "flags": 1}]))
     for name, q in out:
         for fr in q["frames"]:
             fr.pop("pads", None)
@@ -1075,7 +1170,11 @@ def c15(rep, work, tier, seed):
         for line in open(hosts):
             c = json.loads(line)
             f.write(json.dumps(c) + "\n")
-            for j, (name, q) in enumerate(feature_switches(c["prog"])):
+            sws = feature_switches(c["prog"])
+            if len(sws) > 160:
+                import random
+                sws = random.Random(seed).sample(sws, 160)
+            for j, (name, q) in enumerate(sws):
                 m += 1
                 f.write(json.dumps({"id": f"{c['id']}|{name}#{j}", "mode": "full", "meta": {"gen": "g5-feature", "feature": name}, "prog": q}) + "\n")
     res2 = batched_stage(rep, work, b, sw_cases, "g3-hosts", batch=30000)
@@ -1095,8 +1194,10 @@ CHECKS["C15"] = (c15, "model_checking")
 
 # ------------------------------------------------------------------------------------------
 # C04 / C05 / C12: faults
-def faults(binpath, cases, out, kind, seed, n=0, mode="light", classes=None):
+def faults(binpath, cases, out, kind, seed, n=0, mode="light", classes=None, maxfields=None):
     cmd = [binpath, "faults", "--in", cases, "--kind", kind, "--seed", str(seed), "--n", str(n), "--mode", mode, "--out", out]
+    if maxfields:
+        cmd += ["--maxfields", str(maxfields)]
     if classes:
         cmd += ["--classes", classes]
     r = subprocess.run(cmd, capture_output=True, text=True)
@@ -1226,6 +1327,40 @@ def stress_cases(tier):
         yield {"id": f"stress-frames-{n}", "mode": "light", "meta": {"gen": "g5c", "shape": "frames", "n": n}, "prog": many_frames(n)}
     for n in ([5000] if tier == "quick" else [5000, 65535]):
         yield {"id": f"stress-layers-{n}", "mode": "light", "meta": {"gen": "g5c", "shape": "flat layers", "n": n}, "prog": many_flat_layers(n)}
+    yield from extreme_id_cases()
+
+
+def extreme_id_cases():
+    """Well-formed chunks whose 32-bit index fields sit at the top of their range, with the data to match (a single-field
+    corruption cannot produce these: the entry count would no longer agree). Loaded without chunk events (mode light):
+    the result must be a sprite or an error value, and whatever loads must be fully usable."""
+    M = 4294967295
+    def n32(v):
+        return v if v < 2 ** 31 else str(v)
+    def pal(first, n):
+        return {"k": "pal", "total": str(min(M, first + n)), "first": n32(first), "last": n32(first + n - 1),
+                "entries": [{"flags": 1 if i == 1 else 0, "rgba": [i % 256, 2, 3, 255], "name": [110] if i == 1 else []} for i in range(n)]}
+    layer = {"k": "layer", "flags": 1, "name": [76]}
+    def sprite(depth, chunks, px):
+        return {"hdr": {"w": 1, "h": 1, "depth": depth, "tidx": 7}, "frames": [{"dur": 1, "chunks": chunks + [layer, {"k": "cel", "layer": 0, "ctype": 0, "w": 1, "h": 1, "px": [px]}]}]}
+    shapes = {
+        "palette-last-entry-only": sprite(8, [pal(M, 1)], [0]),
+        "palette-top-two": sprite(8, [pal(0, 4), pal(M - 1, 2)], [1]),
+        "palette-top-four-after-legacy": sprite(8, [{"k": "oldpal04", "packets": [{"skip": 0, "count": 2, "rgb": [[1, 2, 3], [4, 5, 6]]}]}, pal(M - 3, 4)], [1]),
+        "palette-across-2^31": sprite(32, [pal(2 ** 31 - 2, 4)], [1, 2, 3, 255]),
+        "palette-across-2^16": sprite(8, [pal(0, 2), pal(65534, 4)], [1]),
+        "palette-across-2^8-indexed": sprite(8, [pal(254, 4)], [255]),
+        "extfiles-top-ids": sprite(32, [{"k": "extfiles", "entries": [{"id": str(M), "etype": 0, "name": [97]}, {"id": str(M - 1), "etype": 1, "name": []}, {"id": "0", "etype": 2, "name": [98]}]}], [1, 2, 3, 255]),
+        "slice-top-values": sprite(32, [{"k": "slice", "name": [115], "flags": 3, "keys": [
+            {"frame": str(M), "x": str(-2 ** 31), "y": str(2 ** 31 - 1), "w": str(M), "h": str(M), "s9": {"cx": str(-2 ** 31), "cy": "-1", "cw": str(M), "ch": str(M)}, "pivot": {"x": str(2 ** 31 - 1), "y": str(-2 ** 31)}},
+            {"frame": "0", "x": "0", "y": "0", "w": "0", "h": "0", "s9": {"cx": "0", "cy": "0", "cw": "0", "ch": "0"}, "pivot": {"x": "0", "y": "0"}}]}], [1, 2, 3, 255]),
+    }
+    ts = {"k": "tileset", "id": str(M), "flags": 6, "count": 2, "tw": 1, "th": 1, "base": 1, "name": [116], "px": [[0, 0, 0, 0], [9, 8, 7, 255]], "store": "stored"}
+    shapes["tileset-top-id"] = {"hdr": {"w": 1, "h": 1, "depth": 32}, "frames": [{"dur": 1, "chunks": [
+        ts, {"k": "layer", "flags": 1, "ltype": 2, "name": [84], "tileset": [str(M)]},
+        {"k": "cel", "layer": 0, "ctype": 3, "w": 1, "h": 1, "tiles": [1], "bits": 32, "masks": [536870911, "2147483648", 1073741824, 536870912], "store": "stored"}]}]}
+    for name, prog in shapes.items():
+        yield {"id": f"stress-extreme-{name}", "mode": "light", "meta": {"gen": "g5c", "shape": "32-bit index fields at the top of their range, data consistent"}, "prog": prog}
 
 
 ALLOC_CAP = str(768 * 1024 * 1024)
@@ -1458,8 +1593,14 @@ def c16(rep, work, tier, seed):
     gen(b, cases2, "render", seed + 12, 200 if tier == "quick" else 5000)
     hugec = work.path("relhuge.ndjson")
     gen(b, hugec, "huge", seed + 14, 150 if tier == "quick" else 3000)
+    bigm = work.path("relbigmap.ndjson")
+    gen(b, bigm, "bigmap", seed + 16, 8 if tier == "quick" else 80)
+    bigc = work.path("relbigcel.ndjson")
+    gen(b, bigc, "bigcel", seed + 17, 2 if tier == "quick" else 12)
     with open(cases2, "a") as f:
         f.write(open(hugec).read())
+        f.write(open(bigm).read())
+        f.write(open(bigc).read())
     pair_trace = work.path("pairs.ndjson")
     npairs = 0
     with open(pair_trace, "w") as po:
